@@ -222,11 +222,10 @@ class StaticResolver(object):
         self.table = table or {}
         self.default = default
 
-    @asyncio.coroutine
-    def resolve(self, host):
+    async def resolve(self, host):
         import socket
         from wpull.network.dns import ResolveResult, AddressInfo
-        yield from asyncio.sleep(0)
+        await asyncio.sleep(0)
         ip = self.table.get(host, self.default)
         if callable(ip):
             ip = ip(host)
